@@ -119,6 +119,15 @@ Theorem C11_kept_not_old : forall a c now ds k i x,
 Proof. exact kept_not_old. Qed.
 Print Assumptions C11_kept_not_old.
 
+(** The leading run of protected deltas is never cut ("always keep min_nr files, always keep
+    files younger than min_seconds"). *)
+Theorem C11_protected_prefix_kept : forall a c now ds k j,
+  find_deltas_truncate_age a c now ds = Some k -> (j <= length ds)%nat ->
+  (forall i x, (i < j)%nat -> nth_error ds i = Some x -> protected c now (N.of_nat i) x = true) ->
+  N.of_nat j <= k.
+Proof. exact protected_prefix_kept. Qed.
+Print Assumptions C11_protected_prefix_kept.
+
 Theorem C11_truncate_age_stop : forall a c now ds k,
   find_deltas_truncate_age a c now ds = Some k ->
   k = N.of_nat (length ds) \/
